@@ -47,3 +47,6 @@ func (c *Client) VerifState() (connected bool, authenticated bool) {
 }
 
 func (c *Client) VerifConfig() ClientConfig { return c.config }
+
+// VerifConnString is the address the client dials
+func (c *Client) VerifConnString() string { return c.connectionString }
